@@ -1,9 +1,18 @@
-"""C21 - Escaping and encoding helpers are safe and invertible (probe draft)."""
+"""C21 - Escaping and encoding helpers are safe and invertible.
+
+Real code driven: tornado.escape.xhtml_escape / xhtml_unescape / url_escape / url_unescape /
+json_encode / json_decode / utf8 / to_unicode / recursive_unicode / parse_qs_bytes (and the
+stdlib code they wrap, executed symbolically by CrossHair).
+Oracle: the property statement (safety of the escaped form, round trips, a reference
+query-string splitter written here), never the implementation.
+"""
 from typing import List, Tuple
 
 from vp.api import P, harness, in_shard, reached
 
 from tornado import escape
+
+TECHNIQUE = "CrossHair symbolic execution of the real helpers over symbolic str/bytes/value shapes"
 
 
 def no_surrogates(s: str) -> bool:
@@ -13,35 +22,434 @@ def no_surrogates(s: str) -> bool:
     return True
 
 
-_ENT = {"&": "&amp;", "<": "&lt;", ">": "&gt;", '"': "&quot;", "'": "&#x27;"}
+def _cls(c: str) -> int:
+    """class of a character for sharding (0..4 the five HTML specials, 5 other)."""
+    if c == "&":
+        return 0
+    if c == "<":
+        return 1
+    if c == ">":
+        return 2
+    if c == '"':
+        return 3
+    if c == "'":
+        return 4
+    return 5
+
+
+# ------------------------------------------------------------------------------------------ HTML
+_SENT = "\x00"
 
 
 def pre_html(s: str) -> bool:
-    return len(s) <= P.L and no_surrogates(s) and in_shard(len(s))
+    if not (len(s) <= P.L and no_surrogates(s)):
+        return False
+    key = (_cls(s[0]) if len(s) > 0 else 0) + 6 * (_cls(s[1]) if len(s) > 1 else 0)
+    return in_shard(key)
 
 
-@harness(pre=pre_html, quick=dict(L=5, timeout=120), thorough=dict(L=7, timeout=1200),
-         nshards=dict(quick=1, thorough=1), reach=["amp"])
+@harness(pre=pre_html, quick=dict(L=3, timeout=150), thorough=dict(L=5, timeout=1400),
+         nshards=dict(quick=4, thorough=36), reach=["amp_in_input", "astral", "entity_like_input"],
+         units=["escape.xhtml_escape", "escape.xhtml_unescape", "escape.to_unicode",
+                "html.escape", "html.unescape"],
+         stubs=["text without lone surrogates (pre), as the statement says"],
+         outside=["strings longer than L code points"])
 def h_html(s: str):
+    """xhtml_escape(s): no < > quote apostrophe, every & starts one of the 5 entities the escaper
+    introduces, one entity per special input character, and xhtml_unescape gives s back."""
     e = escape.xhtml_escape(s)
-    assert isinstance(e, str)
+    assert type(e) is str
     for ch in "<>\"'":
-        assert ch not in e, "raw %r in escaped output" % ch
+        assert ch not in e, "raw %r in escaped output %r" % (ch, e)
+    t = (e.replace("&amp;", _SENT).replace("&lt;", _SENT).replace("&gt;", _SENT)
+         .replace("&quot;", _SENT).replace("&#x27;", _SENT))
+    assert "&" not in t, "'&' outside an introduced entity in %r" % (e,)
+    nspecial = s.count("&") + s.count("<") + s.count(">") + s.count('"') + s.count("'")
+    assert t.count(_SENT) == nspecial + s.count(_SENT), "entity count differs from special count"
+    assert len(t) == len(s), "non-special characters must be copied one to one"
     if "&" in s:
-        reached("amp")
-    ref = "".join(_ENT.get(c, c) for c in s)
-    assert e == ref
-    assert escape.xhtml_unescape(e) == s
+        reached("amp_in_input")
+    if len(s) > 0 and ord(s[0]) > 0xFFFF:
+        reached("astral")
+    if s[:2] == "&l":
+        reached("entity_like_input")
+    assert escape.xhtml_unescape(e) == s, "unescape(escape(s)) != s"
 
 
-def pre_urlb(b: bytes, plus: bool) -> bool:
+def pre_html_bytes(b: bytes) -> bool:
     return len(b) <= P.L
 
 
-@harness(pre=pre_urlb, quick=dict(L=1, timeout=120), thorough=dict(L=2, timeout=1200),
-         reach=["pct"])
-def h_urlb(b: bytes, plus: bool):
-    e = escape.url_escape(b, plus)
-    if "%" in e:
-        reached("pct")
-    assert escape.url_unescape(e, encoding=None, plus=plus) == b
+@harness(pre=pre_html_bytes, quick=dict(L=2, timeout=120), thorough=dict(L=4, timeout=1400),
+         reach=["valid_multibyte", "invalid_utf8"],
+         units=["escape.xhtml_escape", "escape.xhtml_unescape", "escape.to_unicode"],
+         outside=["byte strings longer than L"])
+def h_html_bytes(b: bytes):
+    """bytes input: valid UTF-8 is escaped like its decoding; invalid UTF-8 raises (never emits)."""
+    try:
+        ref = b.decode("utf-8")
+    except UnicodeDecodeError:
+        ref = None
+    try:
+        e = escape.xhtml_escape(b)
+    except UnicodeDecodeError:
+        e = None
+    if ref is None:
+        reached("invalid_utf8")
+        assert e is None, "invalid UTF-8 was escaped to %r" % (e,)
+        return
+    assert e is not None
+    if len(ref) < len(b):
+        reached("valid_multibyte")
+    for ch in "<>\"'":
+        assert ch not in e
+    assert escape.xhtml_unescape(e) == ref
+    assert escape.xhtml_unescape(e.encode("utf-8")) == ref
+
+
+# ------------------------------------------------------------------------------------------- URL
+# urllib.parse.quote realises every byte it touches (dict lookup per byte), so the free part is
+# ONE byte / one latin-1 code point (all 256 values explored through realisation forks) placed
+# between pooled neighbours chosen by symbolic index; a second harness takes whole strings of
+# pooled class-representative code points.
+_BL = [b"", b"%", b"\xe9", b"+"]
+_BR = [b"", b"41", b"+", b"%zz", b" /"]
+
+
+def pre_url_bytes(li: int, b: bytes, ri: int, plus: bool) -> bool:
+    return 0 <= li < P.NL and 0 <= ri < P.NR and len(b) <= 1 and in_shard(li * 8 + ri)
+
+
+@harness(pre=pre_url_bytes, quick=dict(NL=1, NR=3, timeout=150), thorough=dict(NL=4, NR=5, timeout=600),
+         nshards=dict(quick=2, thorough=8), reach=["percent_encoded", "plus_for_space"],
+         units=["escape.url_escape", "escape.url_unescape", "urllib.parse.quote",
+                "urllib.parse.quote_plus", "urllib.parse.unquote_to_bytes"],
+         stubs=["value = LEFT[li] + (one free byte or empty) + RIGHT[ri]; LEFT=%r RIGHT=%r "
+                "(quote() realises bytes, so only one position is free; all 256 values are forked)"
+                % (_BL, _BR)],
+         outside=["more than one free byte; neighbours outside the pools"])
+def h_url_bytes(li: int, b: bytes, ri: int, plus: bool):
+    """bytes-returning form: url_unescape(url_escape(v, plus), encoding=None, plus=plus) == v."""
+    v = _BL[li] + b + _BR[ri]
+    e = escape.url_escape(v, plus)
+    assert type(e) is str
+    if "%" in e and li == 0 and ri == 0:
+        reached("percent_encoded")
+    if plus and b == b" ":
+        reached("plus_for_space")
+        assert "+" in e and " " not in e
+    for ch in e:
+        assert ch in "ABCDEFGHIJKLMNOPQRSTUVWXYZabcdefghijklmnopqrstuvwxyz0123456789_.-~%+/", \
+            "unsafe character %r in escaped URL" % ch
+    if plus:
+        assert "/" not in e
+    back = escape.url_unescape(e, encoding=None, plus=plus)
+    assert type(back) is bytes
+    assert back == v, "url_unescape(url_escape(v)) = %r != %r" % (back, v)
+    assert escape.url_unescape(e.encode("ascii"), encoding=None, plus=plus) == v
+
+
+_CP = ["", "a", "Z", "0", "-", "_", ".", "~", " ", "+", "%", "/", "&", "=", "?", "#", "\x00",
+       "\x7f", "\x80", "\xe9", "\u07ff", "\u0800", "\ud7ff", "\ue000", "\uffff", "\U00010000",
+       "\U0010ffff", "%41", "%C3%A9"]
+
+
+def pre_url_str(idx: List[int], c: bytes, plus: bool) -> bool:
+    if not (len(idx) <= P.N and len(c) <= P.F):
+        return False
+    for i in idx:
+        if not 0 <= i < len(_CP):
+            return False
+    return in_shard(idx[0] if len(idx) > 0 else 0)
+
+
+@harness(pre=pre_url_str, quick=dict(N=2, F=0, timeout=200), thorough=dict(N=3, F=0, timeout=1400),
+         nshards=dict(quick=2, thorough=29), reach=["non_ascii"],
+         units=["escape.url_escape", "escape.url_unescape", "urllib.parse.quote",
+                "urllib.parse.quote_plus", "urllib.parse.unquote", "urllib.parse.unquote_plus"],
+         stubs=["s = pooled code points (class representatives: unreserved, reserved, space, plus, "
+                "percent, NUL/DEL, every UTF-8 length boundary, literal %XX) chosen by symbolic index, "
+                "(free code points: see h_url_cp)"],
+         outside=["code points outside the pool of class representatives in this harness; "
+                  "more than N pooled code points"])
+def h_url_str(idx: List[int], c: bytes, plus: bool):
+    """str form: url_unescape(url_escape(s, plus), plus=plus) == s in both plus modes."""
+    s = "".join([_CP[i] for i in idx]) + c.decode("latin-1")
+    e = escape.url_escape(s, plus)
+    if len(idx) > 0 and idx[0] >= 18:
+        reached("non_ascii")
+    _check_url_str(s, e, plus)
+
+
+_SR = ["", "41", "\xe9", "+"]
+
+
+def pre_url_cp(c: bytes, ri: int, plus: bool) -> bool:
+    return len(c) <= 1 and 0 <= ri < P.NR and in_shard(ri * 2 + (1 if plus else 0))
+
+
+@harness(pre=pre_url_cp, quick=dict(NR=2, timeout=150), thorough=dict(NR=4, timeout=600),
+         nshards=dict(quick=2, thorough=8), reach=["free_cp_percent", "free_cp_two_bytes"],
+         units=["escape.url_escape", "escape.url_unescape", "urllib.parse.quote",
+                "urllib.parse.quote_plus", "urllib.parse.unquote", "urllib.parse.unquote_plus"],
+         stubs=["s = one free latin-1 code point (0..255, every value forked when quote() realises it) "
+                "+ RIGHT[ri], RIGHT=%r" % (_SR,)],
+         outside=["free code points above U+00FF (quote() realises each UTF-8 byte: infeasible)"])
+def h_url_cp(c: bytes, ri: int, plus: bool):
+    """str form with a free code point U+0000..U+00FF followed by a pooled right context."""
+    s = c.decode("latin-1") + _SR[ri]
+    e = escape.url_escape(s, plus)
+    if c == b"%":
+        reached("free_cp_percent")
+        assert e.startswith("%25")
+    if len(c) == 1 and c[0] >= 0x80:
+        reached("free_cp_two_bytes")
+    _check_url_str(s, e, plus)
+
+
+def _check_url_str(s, e, plus):
+    for ch in e:
+        assert ch in "ABCDEFGHIJKLMNOPQRSTUVWXYZabcdefghijklmnopqrstuvwxyz0123456789_.-~%+/", \
+            "unsafe character %r in escaped URL" % ch
+    back = escape.url_unescape(e, plus=plus)
+    assert back == s, "url_unescape(url_escape(s)) = %r != %r" % (back, s)
+    assert escape.url_unescape(e.encode("ascii"), plus=plus) == s
+    assert escape.url_unescape(e, encoding=None, plus=plus) == s.encode("utf-8")
+
+
+# ------------------------------------------------------------------------------------------ JSON
+# json.dumps realises every character that needs escaping (dict lookup / format per match) and
+# every int/float (C repr), so free *non-ASCII* text cannot be exhausted.  The symbolic part is:
+# a free ASCII code point (all 128 values: the escaped ones are forked one by one, the printable
+# ones stay symbolic) between pooled tokens chosen by symbolic index, inside a symbolic shape.
+_TOK = ["", "<", "/", "</", "\\", '"', "\n", "\x00", "\x7f", "\xe9", "\u2028", "\U0001f600", "a",
+        "<\\/", "\\u003c", "</script>"]
+_FLOATS = [0.5, -0.0, 1e100, -2.5e-7]
+_INTS = [0, -1, 2 ** 53 + 1, -10 ** 20]
+_KEYS = ["", "k", "<", "/", "\xe9</"]
+
+
+def pre_json_str(li: int, c: str, ri: int) -> bool:
+    if not (0 <= li < P.NT and 0 <= ri < P.NT and len(c) <= P.F):
+        return False
+    for ch in c:
+        if ord(ch) >= 0x80:
+            return False
+    return in_shard(li)
+
+
+@harness(pre=pre_json_str, quick=dict(NT=3, F=1, timeout=150), thorough=dict(NT=len(_TOK), F=1, timeout=900),
+         nshards=dict(quick=2, thorough=16), reach=["lt_slash_across", "control_char"],
+         units=["escape.json_encode", "escape.json_decode", "json.dumps", "json.loads"],
+         stubs=["s = TOK[li] + free ASCII code point(s) + TOK[ri], TOK=%r (first NT entries in quick); "
+                "non-ASCII only through pooled tokens (json.dumps realises escaped characters)" % (_TOK,)],
+         outside=["free non-ASCII code points", "more than F free code points"])
+def h_json_str(li: int, c: str, ri: int):
+    """json_encode(str): never contains '</' and decodes to the same string."""
+    s = _TOK[li] + c + _TOK[ri]
+    e = escape.json_encode(s)
+    assert type(e) is str
+    assert "</" not in e, "'</' in JSON output %r" % (e,)
+    if li == 1 and c == "/":
+        reached("lt_slash_across")
+    if len(c) > 0 and ord(c[0]) < 0x20:
+        reached("control_char")
+    assert escape.json_decode(e) == s, "json_decode(json_encode(s)) != s"
+    assert escape.json_decode(e.encode("utf-8")) == s
+
+
+def _mk_value(shape: int, s: str, t: str, n: int, b: bool, f: float, k: str):
+    if shape == 0:
+        return [None, b, n, f]
+    if shape == 1:
+        return [s, t]
+    if shape == 2:
+        return {k: t}
+    if shape == 3:
+        return {"k": [s, n, None], k + "2": b}
+    if shape == 4:
+        return [[s], {k: [f, {"<": t}]}, n]
+    if shape == 5:
+        return [s + "<", "/" + t]
+    if shape == 6:
+        return {k + "<": {"/" + k: s + "<"}}
+    return [{"a": s, "b": [t, b]}, [], {}]
+
+
+def pre_json_val(shape: int, si: int, ti: int, b: bool, ni: int, fi: int, ki: int) -> bool:
+    # the pool indices are reduced modulo the pool size in the body (a rejecting pre costs paths)
+    return 0 <= shape <= 7 and in_shard(shape)
+
+
+@harness(pre=pre_json_val, quick=dict(NT=6, timeout=120), thorough=dict(NT=len(_TOK), timeout=900),
+         nshards=dict(quick=2, thorough=8), reach=["nested_lt_slash", "float_leaf"],
+         units=["escape.json_encode", "escape.json_decode"],
+         stubs=["value = one of 8 container shapes (None/bool/int/float/list/dict nested to depth 3); "
+                "str leaves TOK[si], TOK[ti], ints %r, floats %r and dict keys %r all chosen by symbolic "
+                "index (json.dumps realises numbers and dict keys, and CrossHair 0.0.110 fails internally on "
+                "symbolic text inside containers here); the free symbolic text is in h_json_str"
+                % (_INTS, _FLOATS, _KEYS)],
+         outside=["free symbolic leaves inside containers", "other shapes / deeper nesting",
+                  "non-JSON values (tuples, non-str keys, NaN)"])
+def h_json_val(shape: int, si: int, ti: int, b: bool, ni: int, fi: int, ki: int):
+    """json_encode(value) never contains '</' and json_decode gives an equal value."""
+    si, ti = si % P.NT, ti % P.NT
+    ni, fi, ki = ni % len(_INTS), fi % len(_FLOATS), ki % len(_KEYS)
+    s = _TOK[si]
+    v = _mk_value(shape, s, _TOK[ti], _INTS[ni], b, _FLOATS[fi], _KEYS[ki])
+    e = escape.json_encode(v)
+    assert "</" not in e, "'</' in JSON output %r" % (e,)
+    if shape == 5 and si == 0 and ti == 0:
+        reached("nested_lt_slash")
+    if shape == 0 and fi == 2:
+        reached("float_leaf")
+    back = escape.json_decode(e)
+    assert back == v, "json_decode(json_encode(v)) = %r != %r" % (back, v)
+    assert type(back) is type(v)
+
+
+# ------------------------------------------------------------------------------------------ UTF-8
+def pre_utf8_str(s: str) -> bool:
+    return len(s) <= P.L and no_surrogates(s)
+
+
+@harness(pre=pre_utf8_str, quick=dict(L=3, timeout=100), thorough=dict(L=6, timeout=900),
+         reach=["multibyte"],
+         units=["escape.utf8", "escape.to_unicode", "escape.recursive_unicode"],
+         stubs=["text without lone surrogates (pre)"], outside=["longer strings"])
+def h_utf8_str(s: str):
+    """to_unicode(utf8(s)) == s; both are the identity on their own result type and on None."""
+    b = escape.utf8(s)
+    assert type(b) is bytes
+    if len(b) > len(s):
+        reached("multibyte")
+    assert escape.to_unicode(b) == s
+    assert escape.utf8(b) is b and escape.to_unicode(s) is s
+    assert escape.utf8(None) is None and escape.to_unicode(None) is None
+    r = escape.recursive_unicode({7: [b, (b, s, 1)], b"k": None})
+    assert r == {7: [s, (s, s, 1)], "k": None}
+    assert type(r[7][1]) is tuple and type(r[7]) is list
+
+
+def pre_utf8_bytes(b: bytes) -> bool:
+    return len(b) <= P.L
+
+
+@harness(pre=pre_utf8_bytes, quick=dict(L=3, timeout=100), thorough=dict(L=4, timeout=900),
+         reach=["valid_multibyte", "invalid"],
+         units=["escape.utf8", "escape.to_unicode", "escape.recursive_unicode"],
+         outside=["longer byte strings"])
+def h_utf8_bytes(b: bytes):
+    """utf8(to_unicode(b)) == b for every valid UTF-8 byte string; invalid data raises."""
+    try:
+        u = escape.to_unicode(b)
+    except UnicodeDecodeError:
+        u = None
+    try:
+        ref = b.decode("utf-8")
+    except UnicodeDecodeError:
+        ref = None
+    if ref is None:
+        reached("invalid")
+        assert u is None, "invalid UTF-8 decoded to %r" % (u,)
+        return
+    assert u == ref and type(u) is str
+    if len(u) < len(b):
+        reached("valid_multibyte")
+    assert escape.utf8(u) == b, "utf8(to_unicode(b)) != b"
+    assert escape.recursive_unicode([b, (b,)]) == [u, (u,)]
+
+
+def pre_utf8_types(k: int, n: int) -> bool:
+    return 0 <= k <= 8
+
+
+@harness(pre=pre_utf8_types, quick=dict(timeout=60), thorough=dict(timeout=60), reach=["rejected"],
+         units=["escape.utf8", "escape.to_unicode"], outside=["types outside the listed ones"])
+def h_utf8_types(k: int, n: int):
+    """utf8/to_unicode reject everything that is not str/bytes/None with TypeError."""
+    v = [n, 0.5, [b"a"], ("a",), {"a": b"a"}, bytearray(b"ab"), memoryview(b"ab"), object(), n > 0][k]
+    for fn in (escape.utf8, escape.to_unicode):
+        try:
+            r = fn(v)
+            raised = None
+        except Exception as ex:
+            raised = ex
+        assert type(raised) is TypeError, "%s(%r) did not raise TypeError" % (fn.__name__, v)
+    reached("rejected")
+
+
+# ---------------------------------------------------------------------------------- query strings
+def _hexval(c: int) -> int:
+    if 0x30 <= c <= 0x39:
+        return c - 0x30
+    if 0x41 <= c <= 0x46:
+        return c - 0x41 + 10
+    if 0x61 <= c <= 0x66:
+        return c - 0x61 + 10
+    return -1
+
+
+def _ref_unquote(b: bytes) -> bytes:
+    out = []
+    i = 0
+    n = len(b)
+    while i < n:
+        c = b[i]
+        if c == 0x2B:
+            out.append(0x20)
+            i += 1
+        elif c == 0x25 and i + 2 < n and _hexval(b[i + 1]) >= 0 and _hexval(b[i + 2]) >= 0:
+            out.append(_hexval(b[i + 1]) * 16 + _hexval(b[i + 2]))
+            i += 3
+        else:
+            out.append(c)
+            i += 1
+    return bytes(out)
+
+
+def _ref_parse_qs(b: bytes, keep_blank: bool):
+    """Reference: '&'-separated fields, first '=' separates name from value, '+' is a space,
+    %XX is a byte, everything else is literal; blank values dropped unless keep_blank."""
+    res = {}
+    for field in b.split(b"&"):
+        if not field:
+            continue
+        eq = field.find(b"=")
+        if eq < 0:
+            name, value = field, b""
+        else:
+            name, value = field[:eq], field[eq + 1:]
+        if not value and not keep_blank:
+            continue
+        res.setdefault(_ref_unquote(name).decode("latin-1"), []).append(_ref_unquote(value))
+    return res
+
+
+def pre_qs(b: bytes, keep: bool) -> bool:
+    return len(b) <= P.L and in_shard(len(b) + (1 if keep else 0))
+
+
+@harness(pre=pre_qs, quick=dict(L=3, timeout=150), thorough=dict(L=5, timeout=1400),
+         nshards=dict(quick=4, thorough=12), reach=["pair", "percent_decoded", "high_byte_name"],
+         units=["escape.parse_qs_bytes", "urllib.parse.parse_qs"],
+         outside=["query strings longer than L bytes", "strict_parsing=True", "max_num_fields"])
+def h_qs(b: bytes, keep: bool):
+    """parse_qs_bytes(bytes) and parse_qs_bytes(latin-1 str) == reference splitter: every byte
+    of every name and value is preserved."""
+    got = escape.parse_qs_bytes(b, keep_blank_values=keep)
+    ref = _ref_parse_qs(b, keep)
+    if len(ref) > 0:
+        reached("pair")
+        k0 = list(ref)[0]
+        if len(k0) > 0 and ord(k0[0]) >= 0x80:
+            reached("high_byte_name")
+    if b[:1] == b"a" and b[1:2] == b"=" and b[2:3] == b"%":
+        reached("percent_decoded")
+    assert got == ref, "parse_qs_bytes(%r) = %r, reference %r" % (b, got, ref)
+    for k, vs in got.items():
+        assert type(k) is str
+        for v in vs:
+            assert type(v) is bytes
+    got2 = escape.parse_qs_bytes(b.decode("latin-1"), keep_blank_values=keep)
+    assert got2 == ref, "str form differs: %r vs %r" % (got2, ref)
